@@ -365,6 +365,14 @@ func (r *tcpRig) doGateway(q ingReq) ingRes {
 		h.Set("X-RPCX-SerializeType", "json")
 	case "badmeta":
 		h.Set("X-RPCX-Meta", "%zz=1")
+	case "badser+ct": // a serialize type that is not a number next to a compress type that is one
+		h.Set("X-RPCX-SerializeType", "raw")
+		h.Set("X-RPCX-CompressType", "0")
+	case "badct":
+		h.Set("X-RPCX-CompressType", "gzip")
+	case "badid+ct":
+		h.Set("X-RPCX-MessageID", "seven")
+		h.Set("X-RPCX-CompressType", "0")
 	}
 	cl := &http.Client{Transport: &http.Transport{DisableKeepAlives: true}, Timeout: 3 * time.Second}
 	resp, err := cl.Do(req)
@@ -785,9 +793,11 @@ func runIngress(prop string, r *common.Rand, tier string, o *common.Out, replay 
 	// malformed gateway / json-rpc requests
 	open := [4]bool{false, false, false, false}
 	authOnly := [4]bool{false, false, true, false}
-	for _, m := range []string{"nopath", "nomethod", "noser", "badid", "badser", "badmeta"} {
+	for _, m := range []string{"nopath", "nomethod", "noser", "badid", "badser", "badmeta", "badser+ct", "badct", "badid+ct"} {
 		for _, cfg := range [][4]bool{open, authOnly} {
 			runOne(next(), cfg, ingReq{ing: "gateway", token: "good", path: "Arith", method: "Mul", id: id, a: 2, b: 3, mode: "ok", malformed: m, seq: 5})
+			// the same towards a method that takes raw bytes (whatever the broken header is taken for, the handler could run)
+			runOne(next(), cfg, ingReq{ing: "gateway", token: "good", path: "Raw", method: "Mul", id: id, a: 2, b: 3, mode: "ok", malformed: m, seq: 6, raw: true})
 		}
 	}
 	runOne(next(), open, ingReq{ing: "jsonrpc", token: "good", path: "Arith", method: "Mul", id: id, a: 2, b: 3, mode: "ok", malformed: "nodot"})
